@@ -168,7 +168,7 @@ theorem triPixels_in_box (t : Tri) (style : TriStyle) (bb : Rect)
       · -- the empty iterator: nothing is yielded
         subst he
         rw [TriScanlines.empty_next] at hnew
-        simp only [Option.bind_some, pure, Option.some.injEq] at hnew
+        simp only [Option.bind_some, pure, Option.getD_none, Option.some.injEq] at hnew
         subst hnew
         rw [TriPixels.empty_toListFuel] at hpx
         cases hpx
@@ -179,16 +179,18 @@ theorem triPixels_in_box (t : Tri) (style : TriStyle) (bb : Rect)
           | none => rw [hn] at hnew; cases hnew
           | some x =>
             rw [hn] at hnew
-            cases x with
+            obtain ⟨first, si2⟩ := x
+            cases first with
             | none =>
-              simp only [Option.bind_some, pure, Option.some.injEq] at hnew
+              simp only [Option.bind_some, pure, Option.getD_none, Option.some.injEq] at hnew
               subst hnew
-              exact ⟨Or.inr hinv, lineOK_newEmpty _ _ _ _ _⟩
+              exact ⟨Or.inr (TriScanlines.next_none_inv hctx si hinv si2 hn), lineOK_newEmpty _ _ _ _ _⟩
             | some y =>
-              obtain ⟨⟨l, ty⟩, si2⟩ := y
-              simp only [Option.bind_some, pure, Option.some.injEq] at hnew
+              obtain ⟨l, ty⟩ := y
+              simp only [Option.bind_some, pure, Option.getD_some, Option.some.injEq] at hnew
               subst hnew
-              obtain ⟨a, b⟩ := TriScanlines.next_inv hctx si hinv l ty si2 hn
+              obtain ⟨a, b⟩ := TriScanlines.next_inv hctx si hinv l ty si2
+                ((TriScanlines.next_some_iff si si2 (l, ty)).mp hn)
               exact ⟨Or.inr a, Or.inr b⟩
         -- drain
         have key : ∀ (fuel : Nat) (it : TriPixels),
